@@ -1383,7 +1383,7 @@ def run_fcase(case):
             return d
         docs = [nested(n) for n in range(3)]
         mk = rng.choice([lambda: path.rec.leaf, lambda: path.rec[has(path.leaf)].leaf, lambda: path.rec.x[0],
-                         lambda: path.rec.x[wc], lambda: path[gwc].rec.leaf, lambda: path.rec.rec.leaf])
+                         lambda: path.rec.x[wc], lambda: path[gwc].rec.leaf, lambda: path.rec.k.rec.leaf])
         shared = mk()
 
         def outcome(thunk):
